@@ -3,6 +3,7 @@ EXTENDS XMask, Json
 KGrid == {"DA", "DS2"}
 KDA == {"DA"}
 KStack == {"DA2S", "DAMI"}
-KCross == {"CROSS"}
+KCross == {"CROSS", "CROSSLAG"}
+KList == {"LIST2"}
 Emit == phase = "done" => PrintT(<<"@@", ToJson([kind |-> kind, nan |-> mask, rx |-> rx, ry |-> ry, pred |-> pred])>>)
 =============================================================================
